@@ -49,6 +49,24 @@ def tables(thorough):
             if thorough and variant == "special": aux = aux + [("K%02d" % k, "v%d" % k) for k in range(40)]
             periods = [None, [0.0] * nd, [0.0 if d else 6.25 for d in range(nd)]][(si + (variant == "special")) % 3]
             out.append(("table%d/%s orders=%s nknots=%s naux=%d" % (si, variant, list(orders), list(nks), len(aux)), dict(orders=list(orders), knots=knots, coeffs=coeffs, extents=ext, periods=periods, aux=aux)))
+    if thorough:
+        rnd = random.Random(vlib.SEED + 6)
+        for k in range(150):
+            nd = rnd.randint(1, 6); orders = [rnd.randint(0, 5 if nd < 3 else 2) for _ in range(nd)]
+            nks = [2 * o + 2 + rnd.randint(0, 3 if nd > 3 else 6) for o in orders]
+            knots = []
+            for d in range(nd):
+                t = [Fr(rnd.randint(-9, 9), rnd.randint(1, 7))]
+                for m in range(1, nks[d]): t.append(t[-1] + Fr(rnd.randint(0, 5), rnd.randint(1, 4)))
+                knots.append(t)
+            naxes = [nks[d] - orders[d] - 1 for d in range(nd)]; n = 1
+            for a in naxes: n *= a
+            coeffs = [SPECIAL[rnd.randrange(len(SPECIAL))] if rnd.random() < 0.2 else Fr(float_round(Fr(rnd.randint(-10**6, 10**6), rnd.randint(1, 10**4)))) for _ in range(n)]
+            coeffs = [c if isinstance(c, str) else Fr(float_round(c)) for c in coeffs]
+            ext = [(Fr(rnd.randint(-50, 0)), Fr(rnd.randint(1, 50))) for d in range(nd)]
+            aux = [("R%d" % j, "".join(rnd.choice("abc XYZ'019.-+") for _ in range(rnd.randint(0, 30)))) for j in range(rnd.randint(0, 5))]
+            aux = [(k_, v.rstrip(" ")) for k_, v in aux]
+            out.append(("random%d orders=%s nknots=%s naux=%d" % (k, orders, nks, len(aux)), dict(orders=orders, knots=knots, coeffs=coeffs, extents=ext, periods=[0.0] * nd, aux=aux)))
     return out
 
 def float_round(q):
@@ -219,7 +237,7 @@ def main():
         if a != b:
             pos = next((i for i in range(min(len(a), len(b))) if a[i] != b[i]), min(len(a), len(b)))
             confbad.append((tag, "files differ at byte %d (card %d of its header block): model %r, cfitsio %r" % (pos, (pos % 2880) // 80, a[pos - pos % 80:pos - pos % 80 + 80], b[pos - pos % 80:pos - pos % 80 + 80])))
-        elif '"equal": true' not in o and "special" not in tag: confbad.append((tag, "operator== of the library reports the re-read table different: " + o[-200:]))
+        elif '"equal": true' not in o and "nan" not in cases[k][1]["coeffs"]: confbad.append((tag, "operator== of the library reports the re-read table different: " + o[-200:]))
     rep.add_group("conformance of the cfitsio model (writer side): the file written by the extracted writer is read and re-written both by the extracted code over the model and by the real library over the installed cfitsio: the two second-generation files are identical byte for byte", len(jobs), len(jobs) - len(confbad), time.time() - t1, bounded="the %d explored tables" % len(jobs), name="C06-model-conformance")
     if confbad:
         for c in confbad[:10]: print("MODEL-MISMATCH %s :: %s" % c)
